@@ -112,6 +112,14 @@ def main():
             if [r for r in recs if r["scenario"] == rp["persist_scenario"] and not r["ok"]]:
                 violation(ctx, rp)
             finish(ctx)
+        if "reload_walk" in rp:
+            rb = build_harness(ctx, ["realrun"])
+            outp = os.path.join(ctx.run, "reload.jsonl")
+            rc, o = sh([rb["realrun"], "-mode", "reload", "-walk", ",".join(rp["reload_walk"]), "-out", outp], cwd=ctx.run, timeout=300)
+            recs = [json.loads(l) for l in open(outp)] if rc == 0 else []
+            if [r for r in recs if not r.get("ok")]:
+                violation(ctx, rp)
+            finish(ctx)
         if "mode" in rp:
             import storelib
             sb = build_harness(ctx, ["storerun"])
@@ -230,6 +238,26 @@ def main():
         if tbad and not wrong:
             violation(ctx, {"what": "checkStatus differs from System.check_status", "broken": "correspondence schedtab vs coq/System.v check_status",
                             "rows": [rows[i] for i in tbad[:3]]}, found_input=False)
+    if prop == "C16":
+        # the reload path of the real application (--watch): a random walk over definition versions that often returns to an
+        # earlier content; jobs running / queued / accepted around each change must use the version of their accept time
+        rb = build_harness(ctx, ["realrun"])
+        outp = os.path.join(ctx.run, "reload.jsonl")
+        recs = []
+        if rb:
+            rc, o = sh([rb["realrun"], "-mode", "reload", "-seed", str(ctx.seed), "-n", "3" if ctx.tier == "quick" else "12", "-out", outp],
+                       cwd=ctx.run, timeout=900)
+            if rc == 0:
+                recs = [json.loads(l) for l in open(outp)]
+        steps = [r for r in recs if r.get("kind") == "reload_step"]
+        if not steps or [r for r in recs if r.get("kind") == "error"]:
+            violation(ctx, {"what": "realrun -mode reload did not complete: %s" % [r.get("what") for r in recs if r.get("kind") == "error"][:2],
+                            "broken": "the reload walk over the real application (C16) cannot run"}, found_input=False)
+        ctx.coverage["reload_walk_steps"] = len(steps)
+        ctx.coverage["reload_walk_returns_to_earlier_version"] = sum(1 for r in steps if r["to"] in r["walk"][:r["step"] + 1])
+        ctx.coverage["reload_walk_max_tries"] = max([r["tries"] for r in steps] or [0])
+        for r in [r for r in steps if not r["ok"]][:2]:
+            violation(ctx, {"what": "real application, definitions file rewritten (watch mode): " + r["what"], "reload_walk": r["walk"][:r["step"] + 2], "step": r})
     if prop == "C11":
         # the real persist loop in real time (3 s interval): every acknowledged change reaches the store without an explicit save
         pb = build_harness(ctx, ["persistrun"])
